@@ -162,7 +162,7 @@ def main():
                 items.append((t.to_json(), mode, compact, mo, sym, ("array", "scalar")[(k + j) % 2], args.seed + k, timeout))
     if args.thorough:
         timeout = 60000
-        extra = families.E(3, 4) + families.random_topos(args.seed, 30)
+        extra = families.E(4, 5) + families.E(3, 4, maxN=5) + families.random_topos(args.seed, 30)
         for k, t in enumerate(extra):
             mode, compact, mo = cfgs_full[k % len(cfgs_full)]
             if mode == "num" and has_main(t):
@@ -176,7 +176,7 @@ def main():
         tot, levels, samples, st, len(items),
         "program = (topology, parameter mode sym|num, compactness level, more_out, SX|MX); one query per (program, NumPy path, next-state component): "
         "IR term == NumPy-symbolic term; non-trivial = not closed syntactically",
-        {"bounds": {"family": "K (18 curated) x {3 quick | 12 thorough configurations} x {SX, MX}" + (" + E(3,4) + R(seed,30) rotating configurations" if args.thorough else ""),
+        {"bounds": {"family": "K (20 curated) x {3 quick | 12 thorough configurations} x {SX, MX}" + (" + E(4,5) + E(3,4) with up to 5 segments + R(seed,30), rotating configurations" if args.thorough else ""),
                     "values": "all reals with non-zero denominators (L1), admissible domain as fallback (L2/L3)"},
          "ir_instructions_translated": extra.get("ir_instructions", 0),
          "functions_encoded": ["Engine.to_function (SX; MX via Function.expand()) IR", "Network.step + NumPy engine (symbolic run)"]})
